@@ -58,7 +58,7 @@ PLAN = {
     'thorough': {
         'parts': [('stateless', 'P6', 0, 3, 1),
                   ('stateless', 'P6', 1, 1, 2),
-                  ('stateless', 'P4', 1, 1, 6),
+                  ('stateless', 'P4', 1, 0, 2),
                   ('stateless', 'P2', 1, 2, 4),
                   ('stateless', 'P1', 1, 3, 14),
                   ('states', 'P5', 2, 1),
